@@ -155,33 +155,47 @@ def run(chk):
                                           "g3": ("xor", ["g2", "g0"]), "g4": ("nor", ["g2", "c"])}, outputs=["g3", "g4", "g1"])),
         ("internal-in-one-cone-root-in-another", build({"i0": ("input", []), "i1": ("input", []), "i2": ("input", []), "g0": ("or", ["i0", "i1"]), "g2": ("xor", ["g0", "i2"]),
                                                        "g3": ("xor", ["g2", "i0"]), "g4": ("buf", ["g2"])}, outputs=["g3", "g4"])),
+        # a wide gate that is an output and feeds two more outputs: after fan-in limiting its tree is shared by three cones, and the
+        # supergates of two cones each contain, as an internal node, a net the other one reads
+        ("wide-gate-shared-by-three-outputs", build({"i0": ("input", []), "i1": ("input", []), "i2": ("input", []), "i3": ("input", []), "i4": ("input", []),
+                                                     "g0": ("nand", ["i0", "i1", "i2", "i3", "i4"]), "g1": ("nand", ["g0", "i2", "i3", "i4"]), "g2": ("or", ["g0", "i1"])}, outputs=["g0", "g1", "g2"])),
+        ("wide-gate-shared-by-two-parity-outputs", build({"i0": ("input", []), "i1": ("input", []), "i2": ("input", []), "i3": ("input", []), "i4": ("input", []),
+                                                          "g0": ("nand", ["i0", "i1", "i2", "i3", "i4"]), "g2": ("xor", ["g0", "i0", "i1", "i4"]), "g4": ("xor", ["g0", "i4"]), "g5": ("xnor", ["g4", "i2"])}, outputs=["g2", "g5"])),
+        # a block x shared by two outputs: internal to the supergate of the deeper output (the stem p reconverges above x), read as an
+        # input by the supergate of the shallower one
+        ("shared-block-internal-to-the-deeper-supergate", build({"a": ("input", []), "b": ("input", []), "c": ("input", []), "d": ("input", []), "e": ("input", []), "p": ("and", ["a", "b"]), "q": ("and", ["c", "d"]),
+                                                                 "x": ("and", ["p", "q"]), "p_n": ("not", ["p"]), "p_d": ("xor", ["p_n", "e"]), "f": ("or", ["x", "p_d"]), "e_x": ("and", ["x", "e"])}, outputs=["f", "e_x"])),
         ("chain-of-roots", build({"a": ("input", []), "b": ("input", []), "g0": ("nand", ["a", "b"]), "g2": ("not", ["g0"]), "g3": ("and", ["g2", "a"]), "g4": ("or", ["g3", "g2"])}, outputs=["g4", "g3", "g0"])),
     ]
     salts = range(12) if chk.tier == "quick" else range(48)
-    runs = [(f"{name}", c, 0) for name, c in fams] + [(f"{name}@order{s}", c, s) for name, c in multi_out + [x for x in fams if len(x[1].outputs()) > 1] for s in salts]
-    for name, c, salt in runs:
+    from ..pkgenv import FullStackCaller
+
+    FS = FullStackCaller(repo)
+    runs = [(f"{name}", c, 0, P) for name, c in fams] + [(f"{name}@order{s}", c, s, P) for name, c in multi_out + [x for x in fams if len(x[1].outputs()) > 1] for s in salts]
+    runs += [(f"{name}@full-stack", c, 0, FS) for name, c in multi_out + [x for x in fams if x[0] in ("reconv", "consts", "fanout", "corpus::shared-subtree-under-two-outputs", "corpus::many-outputs-sharing-logic", "corpus::net-and-its-buffer")]]
+    for name, c, salt, caller in runs:
         RefCircuit._salt = salt  # explores the iteration orders of the internal *set of circuits*
         snap = c._snapshot()
-        r = P.call(FILE, "supergates", c)
+        r = caller.call(FILE, "supergates", c)
         RefCircuit._salt = 0
         n += 1
         key = f"supergates::{name}"
         if r[0] != "return":
             chk.ob("C17.D.decomposition", key, False, file=FILE, func="supergates", line=fi.node.lineno, fact={"result": str(r)[:160]})
             continue
-        prob = check_blocks(P, c, r[1])
+        prob = check_blocks(caller, c, r[1])  # the fan-in-limited circuit as the same kind of evaluation computes it
         if prob is None and c._snapshot() != snap:
             prob = {"problem": "argument modified"}
         chk.ob("C17.D.decomposition", key, prob is None, file=FILE, func="supergates", line=fi.node.lineno, fact=prob or {"blocks": len(r[1])},
                expect="single-output blocks with the circuit's wiring, topological order, cover of the output cones, pairwise independent inputs")
         if len(c.outputs()) == 1:
-            r = P.call(FILE, "supergates", c, True)
+            r = caller.call(FILE, "supergates", c, True)
             n += 1
             key = f"supergates::supercircuit::{name}"
             if r[0] != "return":
                 chk.ob("C17.D.supercircuit", key, False, file=FILE, func="supergates", line=fi.node.lineno, fact={"result": str(r)[:160]})
             else:
-                prob = check_super(P, c, r[1])
+                prob = check_super(caller, c, r[1])
                 chk.ob("C17.D.supercircuit", key, prob is None, file=FILE, func="supergates", line=fi.node.lineno, fact=prob or {"blackboxes": len(r[1][1])}, expect="filling every supergate blackbox reproduces an equivalent circuit")
     multi = next(c for k, c in deep_circuits() if k == "reconv")
     r = P.call(FILE, "supergates", multi, True)
